@@ -3119,3 +3119,223 @@ func rulePerCycleFlagsLowered(r *Run, rule string) {
 		}
 	}
 }
+
+// ruleStoreRoutingPolarity (R05.15): a store is applied to the data cache IN PLACE only on
+// the side of the presence test on which every byte of it is resident: the call that writes the
+// cached line stands in the then-branch of an `if` one of whose POSITIVE conjuncts is the
+// presence test (a bool function that probes the cache). Routed the other way round, a store to
+// an absent line is lost in the cache layer and a store to a resident line goes around the
+// cache, whose stale copy later wins.
+func ruleStoreRoutingPolarity(r *Run, rule string) {
+	w := r.W
+	for _, v := range variants(w) {
+		if v.pkg == nil || usesLineLocks(w, v) {
+			continue
+		}
+		info := v.info
+		isCacheMethod := func(fn *types.Func, name string) bool {
+			sig, ok := fn.Type().(*types.Signature)
+			return ok && sig.Recv() != nil && isCompType(sig.Recv().Type(), "LRUCache") && fn.Name() == name
+		}
+		for _, f := range v.pkg.Syntax {
+			for _, d := range f.Decls {
+				fd, ok := d.(*ast.FuncDecl)
+				if !ok || fd.Body == nil {
+					continue
+				}
+				n := 0
+				ast.Inspect(fd.Body, func(m ast.Node) bool {
+					is, ok := m.(*ast.IfStmt)
+					if !ok {
+						return true
+					}
+					// the body performs an in-place store: a direct call (statement of the body) to a variant function that reaches LRUCache.Write
+					inPlace := false
+					for _, st := range is.Body.List {
+						es, ok := st.(*ast.ExprStmt)
+						if !ok {
+							continue
+						}
+						call, ok := es.X.(*ast.CallExpr)
+						if !ok {
+							continue
+						}
+						fn, ok := typeutil.Callee(info, call).(*types.Func)
+						if !ok || fn.Pkg() != v.pkg.Types {
+							continue
+						}
+						if cfd, cpk := w.FuncDecl(fn); cfd != nil && cfd.Body != nil {
+							if w.reaches(cpk.TypesInfo, cfd.Body, func(g *types.Func) bool { return isCacheMethod(g, "Write") }) {
+								inPlace = true
+							}
+						}
+					}
+					if !inPlace {
+						return true
+					}
+					// the condition consults a presence test at all?
+					var probes []ast.Expr
+					ast.Inspect(is.Cond, func(k ast.Node) bool {
+						call, ok := k.(*ast.CallExpr)
+						if !ok {
+							return true
+						}
+						fn, ok := typeutil.Callee(info, call).(*types.Func)
+						if !ok || fn.Pkg() != v.pkg.Types {
+							return true
+						}
+						if sig := fn.Type().(*types.Signature); sig.Results().Len() != 1 || typeName(sig.Results().At(0).Type()) != "bool" {
+							return true
+						}
+						if cfd, cpk := w.FuncDecl(fn); cfd != nil && cfd.Body != nil {
+							if w.reaches(cpk.TypesInfo, cfd.Body, func(g *types.Func) bool { return isCacheMethod(g, "Get") }) {
+								probes = append(probes, call)
+							}
+						}
+						return true
+					})
+					if len(probes) == 0 {
+						return true
+					}
+					n++
+					positive := false
+					for _, c := range conjuncts(is.Cond) {
+						for _, p := range probes {
+							if ast.Unparen(c) == p {
+								positive = true
+							}
+						}
+					}
+					r.check(positive, rule, fmt.Sprintf("%s.%s:in-place-store#%d", v.rel, declName(fd), n), is.Pos(), "the store is written into the cached line on the side of the presence test on which all its bytes are resident (the test is a positive conjunct of the condition)")
+					return true
+				})
+			}
+		}
+	}
+}
+
+// guardedBy reports whether node use, inside root, executes only when the bool variable bv is
+// true: an enclosing `if` has bv as a positive conjunct of its condition and use lies in its
+// then-branch, or use lies in the else-branch of an `if !bv`, or an earlier statement of an
+// enclosing statement list is `if !bv { …leave }`.
+func guardedBy(info *types.Info, root ast.Node, use ast.Node, bv types.Object) bool {
+	contains := func(n ast.Node) bool { return n != nil && n.Pos() <= use.Pos() && use.End() <= n.End() }
+	isPos := func(c ast.Expr) bool {
+		for _, k := range conjuncts(c) {
+			if id, ok := ast.Unparen(k).(*ast.Ident); ok && info.Uses[id] == bv {
+				return true
+			}
+		}
+		return false
+	}
+	isNeg := func(c ast.Expr) bool {
+		if u, ok := ast.Unparen(c).(*ast.UnaryExpr); ok && u.Op == token.NOT {
+			if id, ok := ast.Unparen(u.X).(*ast.Ident); ok && info.Uses[id] == bv {
+				return true
+			}
+		}
+		return false
+	}
+	ok := false
+	ast.Inspect(root, func(n ast.Node) bool {
+		if n == nil || ok || !contains(n) {
+			return false
+		}
+		switch x := n.(type) {
+		case *ast.IfStmt:
+			if contains(x.Body) && isPos(x.Cond) {
+				ok = true
+			}
+			if x.Else != nil && contains(x.Else) && isNeg(x.Cond) {
+				ok = true
+			}
+		case *ast.BlockStmt:
+			for _, st := range x.List {
+				if contains(st) {
+					break
+				}
+				if is, isIf := st.(*ast.IfStmt); isIf && isNeg(is.Cond) && terminates(is.Body.List) {
+					ok = true
+				}
+			}
+		}
+		return true
+	})
+	return ok
+}
+
+// ruleProbeResultChecked (R05.16): the bytes a cache probe returns are used only where the
+// probe's "found" result is known to be true.
+func ruleProbeResultChecked(r *Run, rule string) {
+	w := r.W
+	for _, v := range variants(w) {
+		if v.pkg == nil || !v.pipelined() {
+			continue
+		}
+		info := v.info
+		for _, f := range v.pkg.Syntax {
+			for _, d := range f.Decls {
+				fd, ok := d.(*ast.FuncDecl)
+				if !ok || fd.Body == nil {
+					continue
+				}
+				n := 0
+				ast.Inspect(fd.Body, func(m ast.Node) bool {
+					as, ok := m.(*ast.AssignStmt)
+					if !ok || len(as.Rhs) != 1 || len(as.Lhs) < 2 {
+						return true
+					}
+					call, ok := as.Rhs[0].(*ast.CallExpr)
+					if !ok {
+						return true
+					}
+					fn, ok := typeutil.Callee(info, call).(*types.Func)
+					if !ok || fn.Pkg() != v.pkg.Types {
+						return true
+					}
+					sig := fn.Type().(*types.Signature)
+					if sig.Results().Len() < 2 || typeName(sig.Results().At(sig.Results().Len()-1).Type()) != "bool" || typeName(sig.Results().At(0).Type()) != "[]int8" {
+						return true
+					}
+					cfd, cpk := w.FuncDecl(fn)
+					if cfd == nil || cfd.Body == nil || !w.reaches(cpk.TypesInfo, cfd.Body, func(g *types.Func) bool {
+						s2, ok := g.Type().(*types.Signature)
+						return ok && s2.Recv() != nil && isCompType(s2.Recv().Type(), "LRUCache") && g.Name() == "Get"
+					}) {
+						return true
+					}
+					did, ok1 := as.Lhs[0].(*ast.Ident)
+					eid, ok2 := as.Lhs[len(as.Lhs)-1].(*ast.Ident)
+					if !ok1 || !ok2 || did.Name == "_" || eid.Name == "_" {
+						return true
+					}
+					obj := func(id *ast.Ident) types.Object {
+						if o := info.Defs[id]; o != nil {
+							return o
+						}
+						return info.Uses[id]
+					}
+					data, found := obj(did), obj(eid)
+					// the scope of the result: the if statement whose init this is, or the enclosing function
+					var scope ast.Node = fd.Body
+					ast.Inspect(fd.Body, func(k ast.Node) bool {
+						if is, ok := k.(*ast.IfStmt); ok && is.Init == ast.Stmt(as) {
+							scope = is
+						}
+						return true
+					})
+					ast.Inspect(scope, func(k ast.Node) bool {
+						id, ok := k.(*ast.Ident)
+						if !ok || info.Uses[id] != data || id.Pos() <= as.End() {
+							return true
+						}
+						n++
+						r.check(guardedBy(info, scope, id, found), rule, fmt.Sprintf("%s.%s:probe-bytes-use#%d", v.rel, declName(fd), n), id.Pos(), "the bytes returned by the cache probe are used only where the probe's found result is true")
+						return true
+					})
+					return true
+				})
+			}
+		}
+	}
+}
